@@ -129,7 +129,7 @@ function_implementations!(
         Ilike,
         IsBool
     ],
-    [Case, Position, SubstrWithSize, RegexpReplace, DatetimeDiff],
+    [Position, SubstrWithSize, RegexpReplace, DatetimeDiff],
     [RegexpExtract],
     x,
     {
@@ -146,6 +146,7 @@ function_implementations!(
             Function::Concat(n) => Arc::new(function::concat(n)),
             Function::Random(_n) => Arc::new(function::random(Mutex::new(OsRng))), //TODO change this initialization
             Function::Coalesce => Arc::new(function::coalesce()),
+            Function::Case => Arc::new(function::nullable_case()),
             _ => unreachable!(),
         }
     }
